@@ -782,8 +782,13 @@ where
                 let s = m.stamp + d;
                 if k > 0 {
                     let base = m.chain.last().cloned().unwrap();
-                    m.records.retain(|st, _| *st < s);
-                    m.damaged.retain(|st| *st < s);
+                    // records at or above the new stamp, and records above the stamp this
+                    // commit starts from (commits that were rolled back), are an abandoned
+                    // future: they neither count towards retention nor take part in later
+                    // rollbacks
+                    let from = m.stamp;
+                    m.records.retain(|st, _| *st < s && *st <= from);
+                    m.damaged.retain(|st| *st < s && *st <= from);
                     while m.records.len() > k - 1 {
                         let first = *m.records.keys().next().unwrap();
                         m.records.remove(&first);
